@@ -7,7 +7,9 @@ static void one_round(long r)
 {
     vrf::Round R(r);
     bool big = (vrf::cfg.mode == "big");
-    Program p = gen_program(R.rng, 100, big);
+    // C05 also injects allocator failures into erase (memory safety must survive them); only with the heap-free element type,
+    // because the node such a failure leaks (unchanged library; not judged here) is released by the harness without its destructor
+    Program p = gen_program(R.rng, 100, big, std::is_same<T, vrf::Cell>::value);
     std::unique_ptr<Fixture<T>> fx(new Fixture<T>());
     uint32_t next_id = 1;
     fx->seed_initial(p.initial, next_id);
@@ -23,8 +25,9 @@ static void one_round(long r)
         (void)fx->final_contents();
         fx->g.reset();
     });
-    if (fx->as.live_blocks() != 0) vrf::violation("oracle:alloc_leak_after_list_destroyed", "{}");
-    fx->as.reset();
+    if (!p.alloc_faults && fx->as.live_blocks() != 0) vrf::violation("oracle:alloc_leak_after_list_destroyed", "{}");
+    vrf::count("allocator_failures_injected_into_erase", fx->as.alloc_failures.load());
+    fx->as.reset(p.alloc_faults);
     vrf::note(vrf::mixhash(p.hash(), R.sched_sig), with_live > 0);
     vrf::count("nodes_reclaimed_before_list_destruction", reclaimed);
     vrf::count("nodes_reclaimed_while_another_handle_alive", with_live);
